@@ -109,6 +109,19 @@ inline std::string gen_scenario(const unsigned char *data, size_t size, const st
     if (c.chance(1, 3)) o += "srcaddr 0 192.168.9.9\n";
     o += "rule * r4 0 silence\nreq 4 query r4.test A\ninject " + std::string(c.chance(3, 4) ? "nocookie" : "badclientcookie") + " 4\nstep\nstep\n"; id = 4; ids.push_back(4);
   }
+  if (prop == "C08" && c.chance(1, 2)) {
+    // cache life-cycle production: fill, let time pass (below, at and beyond typical TTLs), ask again through another API / spelling of the same key
+    static const char *ks[] = {"query", "send", "lquery", "getaddrinfo", "gethostbyname", "lsend"}; static const char *forms[] = {"r1.test", "R1.TEST", "r1.test.", "r1.Test"};
+    static const char *adv[] = {"1s", "2s", "3s", "4s", "6s", "8s", "29s", "31s", "59s", "61s", "99s", "101s", "299s", "301s", "999999us", "1000001us", "3599s", "3601s"};
+    unsigned rounds = 2 + c.pick(4);
+    for (unsigned j = 0; j < rounds && id < pf.max_reqs; j++) {
+      id++; ids.push_back(id); std::string kind = ks[c.pick(6)];
+      o += "req " + std::to_string(id) + " " + kind + " " + forms[c.pick(4)];
+      if (kind == "getaddrinfo" || kind == "gethostbyname") o += " INET"; else o += " A";
+      o += "\nstep\nstep\n";
+      if (c.chance(3, 4)) o += std::string("adv ") + adv[c.pick(18)] + "\nstep\n";
+    }
+  }
   for (unsigned i = 0; i < body; i++) {
     unsigned k = c.pick(20);
     if ((k < 8 || ids.empty()) && id < pf.max_reqs) {
